@@ -9,6 +9,7 @@ import (
 
 	"verif/mc/evid"
 	"verif/mc/ref"
+	"verif/mc/srvx"
 )
 
 // C06: replies mirror the request (session, type, version, flag octet, seq+1 / 1 on RESTART,
@@ -20,7 +21,7 @@ func init() {
 			return evid.Spec{ID: "C06", Level: "model_checking", Exhaustive: true,
 				Rule: "plane 1: every flag octet x every odd sequence number for one (type, minor, session); plane 2: type{1,2,3} x minor{0,1} x 6 session ids x flags{0,1,4,5,0xfe,0xff} x seq{1,3,127,253,255}; " +
 					"each crossed with reply bodies {authentication minimal, RESTART, 300 B, authorization with arguments, accounting, 65536-byte body}; plane 3: multi-packet chains of depth <= 3 " +
-					"(seq s, s+2, s+4 via registered continuations, s in {1,3,249,251,253}) over type x minor x flags{0,1,4,0xff}; plane 5: typed replies sweeping every value of their leading octets (accounting server_msg/data lengths 256k+3, k, authorization argument counts 0..255, every authentication status x sizes); plane 7: handlers whose first one or two replies cannot be encoded (nothing written) and that fall back to another reply, alone and inside continued exchanges, type x minor x flags{0,1,4} x seq{1,3,251,253,255}; plane 6: three requests on one connection (a continued session and another session) over all triples of flag octets {0,4,1,5,0xfa}. Raw reply octets are compared with the model: same version octet, type, flag octet, " +
+					"(seq s, s+2, s+4 via registered continuations, s in {1,3,249,251,253}) over type x minor x flags{0,1,4,0xff}; plane 5: typed replies sweeping every value of their leading octets (accounting server_msg/data lengths 256k+3, k, authorization argument counts 0..255, every authentication status x sizes); plane 8: a client that stops reading before its first reply is written and resumes later (a write against an armed write deadline ends in a timeout after a partial write, as on a socket), then a second request: the stream stays a sequence of whole, correctly announced packets; plane 7: handlers whose first one or two replies cannot be encoded (nothing written) and that fall back to another reply, alone and inside continued exchanges, type x minor x flags{0,1,4} x seq{1,3,251,253,255}; plane 6: three requests on one connection (a continued session and another session) over all triples of flag octets {0,4,1,5,0xfa}. Raw reply octets are compared with the model: same version octet, type, flag octet, " +
 					"session id, seq+1 (1 on RESTART), length field == bytes that follow, body == cleartext XOR reference pad iff the request's unencrypted bit was clear, nothing for request 255, never seq 0. " +
 					"states = distinct (request header class, reply kind) model states; transitions = requests executed; traces = chains fully agreed",
 				Assumptions: []string{"handlers are scripted (library flavour); the reference server's own handlers are covered by C07"}}
@@ -255,6 +256,22 @@ func c06Run(c *Ctx) {
 			}
 		}
 	}
+	// plane 8: a client that stops reading before its first reply and resumes later
+	for _, typ := range []byte{1, 2, 3} {
+		job++
+		if !c.Mine(job) {
+			continue
+		}
+		for _, ver := range []byte{0xc0, 0xc1} {
+			for _, fl := range []byte{0, 1, 4} {
+				for _, rp := range []string{"min", "300", "author", "max"} {
+					for _, next := range []bool{false, true} {
+						c06Slow(c, w, typ, ver, fl, rp, next)
+					}
+				}
+			}
+		}
+	}
 	// plane 7: the handler's first reply (or first two) cannot be encoded - nothing is written for it - and it falls back to
 	// another one, as the reference authorizer does: the fallback is THE reply and mirrors the request like any other,
 	// also when the exchange continues
@@ -314,6 +331,88 @@ func c06Run(c *Ctx) {
 	}
 }
 
+// c06Slow: the client stops reading just before the reply to its first request is written and resumes later; meanwhile
+// (and afterwards) the stream the server produces stays a sequence of whole packets, each announcing exactly the body
+// bytes that follow it.
+func c06Slow(c *Ctx, w *lworld, typ, ver, fl byte, reply string, next bool) {
+	w.reset()
+	lc, err := w.open()
+	if err != nil {
+		c.Abort("hang", err.Error(), nil)
+	}
+	defer func() {
+		lc.C.ReleaseWrites()
+		if !lc.C.Closed() {
+			lc.C.FeedEOF()
+		}
+	}()
+	cs := map[string]interface{}{"slow_reader": true, "type": typ, "version": ver, "flags": fl, "reply": reply, "next": next}
+	c.R.Eval()
+	c.Cur(cs)
+	c.R.Distinct(evid.Hash("slow", typ, ver, fl, reply, next))
+	h1 := ref.Header{Version: ver, Type: typ, Seq: 1, Flags: fl, Session: 0x510e}
+	h2 := ref.Header{Version: ver, Type: typ, Seq: 3, Flags: fl, Session: 0x510e}
+	if !next {
+		h2 = ref.Header{Version: ver, Type: typ, Seq: 1, Flags: fl, Session: 0x510f}
+	}
+	w.setAction(lAction{Action: ref.Action{Reply: true, Next: next}, Body: c06Body(reply)})
+	lc.C.StallWrites()
+	lc.C.Feed(ref.Packet(h1, w.Key, minimalRequest(typ)))
+	if _, ok := lc.C.WaitSettled(srvx.HangTimeout); !ok {
+		c.Abort("hang", "the server neither wrote nor went idle for a client that stopped reading", cs)
+	}
+	lc.C.ReleaseWrites()
+	if _, ok := lc.C.WaitIdleTimeout(srvx.HangTimeout); !ok {
+		c.Abort("hang", "the server did not go idle after the client resumed reading", cs)
+	}
+	c.R.Trans(1)
+	if !lc.C.Closed() {
+		w.setAction(lAction{Action: ref.Action{Reply: true}, Body: c06Body("min")})
+		if _, err := w.W.Deliver(lc.C, ref.Packet(h2, w.Key, minimalRequest(typ))); err != nil {
+			c.Abort("hang", err.Error(), cs)
+		}
+		c.R.Trans(1)
+	}
+	out := lc.C.Take()
+	pk, rest := parseOut(out)
+	torn := lc.C.TornWrites()
+	bad := ""
+	switch {
+	case len(rest) != 0:
+		bad = fmt.Sprintf("%d stray bytes after the last whole packet", len(rest))
+	case len(pk) > 0 && (pk[0].H.Session != h1.Session || pk[0].H.Seq != 2):
+		bad = fmt.Sprintf("the first packet on the wire has header %+v, want the reply to the first request", pk[0].H)
+	case len(pk) > 2:
+		bad = fmt.Sprintf("%d packets for two requests", len(pk))
+	case len(pk) == 2 && (pk[1].H.Session != h2.Session || pk[1].H.Seq != h2.Seq+1):
+		bad = fmt.Sprintf("the second packet on the wire has header %+v, want the reply to the second request", pk[1].H)
+	}
+	if bad == "" && len(pk) >= 1 {
+		body := c06BodyBytes(reply)
+		want := ref.Header{Version: ver, Type: typ, Seq: 2, Flags: fl, Session: h1.Session, Length: uint32(len(body))}
+		wb := body
+		if fl&1 == 0 {
+			wb = ref.Obfuscate(want, w.Key, body)
+		}
+		if pk[0].H != want || string(pk[0].Body) != string(wb) {
+			bad = "the reply to the slow reader's request is not the handler's reply under the request's header"
+		}
+	}
+	if bad != "" {
+		c.R.Violate("slow-reader/"+firstWord(bad), fmt.Sprintf("client that stops reading before its first reply (type %d, version %#x, flags %#x, reply %s, %d write(s) ended in a timeout after a partial write): %s", typ, ver, fl, reply, torn, bad), cs)
+		return
+	}
+	c.R.Trace()
+}
+
+func c06BodyBytes(kind string) []byte {
+	b, err := c06Body(kind).MarshalBinary()
+	if err != nil {
+		panic(err)
+	}
+	return b
+}
+
 // c06Lie: a handler that writes its own packet whose header length field lies; the writer must put the
 // true number of body bytes on the wire and obfuscate with the header actually sent.
 func c06Lie(c *Ctx, w *lworld, fl byte, n int, lie uint32) {
@@ -362,6 +461,18 @@ func c06Replay(c *Ctx, raw json.RawMessage) {
 		Flags byte   `json:"flags"`
 		N     int    `json:"n"`
 		Lie   uint32 `json:"lie"`
+	}
+	var slow struct {
+		Slow  bool   `json:"slow_reader"`
+		Type  byte   `json:"type"`
+		Ver   byte   `json:"version"`
+		Flags byte   `json:"flags"`
+		Reply string `json:"reply"`
+		Next  bool   `json:"next"`
+	}
+	if json.Unmarshal(raw, &slow) == nil && slow.Slow {
+		c06Slow(c, w, slow.Type, slow.Ver, slow.Flags, slow.Reply, slow.Next)
+		return
 	}
 	if json.Unmarshal(raw, &lie) == nil && (lie.N != 0 || lie.Lie != 0) {
 		c06Lie(c, w, lie.Flags, lie.N, lie.Lie)
